@@ -148,8 +148,7 @@ InvDomain  == /\ RLt(RZero, par.sigma) /\ RLt(RZero, par.rc)
 \* r_c = sigma, and Hertz exactly at contact for an integer exponent
 InvEdges   == /\ \E p \in AllPars("inverse_power_law", shift) : p.A[1] = 0
               /\ \E p \in AllPars("inverse_power_law", shift) : p.A[1] < 0
-              /\ \A m \in Models : /\ \E p \in AllPars(m, shift) : p.eps[1] = 0
-                                    /\ \E p \in AllPars(m, shift) : p.eps[1] < 0
+              /\ \A m \in Models : (\E p \in AllPars(m, shift) : p.eps[1] = 0) /\ (\E p \in AllPars(m, shift) : p.eps[1] < 0)
               /\ \E p \in AllPars("lennard_jones", shift) : REq(p.rc, p.sigma)
               /\ \E p \in AllPars("harmonic_hertz", shift) :
                     \E r \in Range(RSeq("harmonic_hertz", p)) : REq(r, p.sigma)
